@@ -828,10 +828,18 @@ class MultipartReader:
             if params.get("name") == "_charset_":
                 # Longest encoding in https://encoding.spec.whatwg.org/encodings.json
                 # is 19 characters, so 32 should be more than enough for any valid encoding.
-                charset = await part.read_chunk(32)
-                if len(charset) > 31:
-                    raise RuntimeError("Invalid default charset")
+                # A chunk read up to the delimiter needs room for the delimiter,
+                # and the stream may hand the value over in pieces.
+                charset = b""
+                while not part.at_eof():
+                    charset += await part.read_chunk(max(32, part._boundary_len))
+                    if len(charset) > 31:
+                        raise RuntimeError("Invalid default charset")
                 self._default_charset = charset.strip().decode()
+                # The delimiter after it is still to be consumed.
+                await self._read_boundary()
+                if self._at_eof:
+                    return None  # type: ignore[unreachable]
                 part = await self.fetch_next_part()
         self._last_part = part
         return self._last_part
